@@ -3,5 +3,6 @@ CONSTANTS
   Dev = {}
   NSamp = 3
   EmitReplay = TRUE
+  Ancs = {1, 2}
 INVARIANTS EntriesAreSites Traversal
 CHECK_DEADLOCK FALSE
